@@ -628,6 +628,23 @@ fn reference(c: &ParamsConfig) -> Option<Times> {
 }
 
 /// does the text show a clock time (h:mm)?
+/// What is compared byte for byte when the sink is the terminal: the listing itself - the lines that
+/// name a Hijri month or a prayer - not informational lines around it (a title, "saved parameters
+/// to ...", a summary that echoes the coordinates).
+fn listing_lines(stdout: &[u8]) -> Vec<u8> {
+    let months: Vec<String> = (1u8..=12).filter_map(|m| islamic_prayer_times::HijriMonth::try_from(m).ok()).map(|m| m.to_string()).collect();
+    let prayers: Vec<String> = [Prayer::Imsaak, Prayer::Fajr, Prayer::Shurooq, Prayer::Dhuhr, Prayer::Asr, Prayer::Maghrib, Prayer::Isha].iter().map(|p| p.to_string()).collect();
+    let text = String::from_utf8_lossy(stdout);
+    let mut out = Vec::new();
+    for l in text.lines() {
+        if months.iter().any(|m| l.contains(m.as_str())) || prayers.iter().any(|p| l.contains(p.as_str())) {
+            out.extend_from_slice(l.as_bytes());
+            out.push(b'\n');
+        }
+    }
+    out
+}
+
 /// a message on stdout is not "something computed"; a listing is
 fn stdout_shows_results(stdout: &[u8]) -> bool {
     let t = String::from_utf8_lossy(stdout);
@@ -942,8 +959,11 @@ pub fn run_pass(ctx: &Ctx, sc: &Scenario, inject: bool) -> PassResult {
             .filter(|l| rec.threads == 0 || !(l.starts_with("getrandom") || l.starts_with("pthread_create")))
             .collect();
         rec.fired = fired_faults(&child.events);
-        rec.stdout_len = child.stdout.len();
-        rec.stdout_hash = format!("{:016x}", fnv1a(&child.stdout));
+        // stdout may echo a path of the scratch directory (whose name contains a pid): normalised
+        // for the record, never for the oracles
+        let stdout_norm = String::from_utf8_lossy(&child.stdout).replace(&*wdir.to_string_lossy(), "$W");
+        rec.stdout_len = stdout_norm.len();
+        rec.stdout_hash = format!("{:016x}", fnv1a(stdout_norm.as_bytes()));
         rec.files_after = after.iter().filter(|(n, _)| artefacts.contains(n)).map(|(n, b)| (n.clone(), format!("{}:{:016x}", b.len(), fnv1a(b)))).collect();
         rec.ops = summarise_ops(&child.events, &step);
         res.probes.steps += 1;
@@ -1183,7 +1203,7 @@ pub fn run_pass(ctx: &Ctx, sc: &Scenario, inject: bool) -> PassResult {
         let sink_file = step.output.is_some();
         let out_bytes: Option<Vec<u8>> = match &step.output {
             Some(o) => after.get(o).cloned(),
-            None => Some(child.stdout.clone()),
+            None => Some(listing_lines(&child.stdout)),
         };
         if step.output.is_some() && out_bytes.is_none() {
             viol!("O1-output", format!("exit 0 but the output file {} does not exist{o5}", step.output.clone().unwrap_or_default()));
@@ -1235,7 +1255,7 @@ pub fn run_pass(ctx: &Ctx, sc: &Scenario, inject: bool) -> PassResult {
                 let hc = run_child(ctx, &wdir, &hargv, &hidden, 100 + k);
                 res.probes.verification_reloads += 1;
                 res.probes.steps += 1;
-                let hout = if sink_file { std::fs::read(wdir.join("__reload_out.json")).unwrap_or_default() } else { hc.stdout.clone() };
+                let hout = if sink_file { std::fs::read(wdir.join("__reload_out.json")).unwrap_or_default() } else { listing_lines(&hc.stdout) };
                 let _ = std::fs::remove_file(wdir.join("__reload_out.json"));
                 if hc.exit != Some(0) || hc.timed_out {
                     match &p_suspect {
